@@ -324,6 +324,15 @@ def _conclusions(P, R):
                 exits = [e for e in ar.loop_exits(lp) if not _iter_exit(ar, e, drv)]
                 if drv["kind"] == "iterator" and not exits and fmt_sym(ar.sym_operand(c.args[1]), maxdepth=5).endswith("rule.name"):
                     okf = True
+    # nothing filed by add_rule is taken out again by add_rule: a clean-up of an earlier version of the rule that runs AFTER
+    # the new mappings were inserted removes the rule from every field both versions assign
+    rems = [c for c in ar.calls() if c.bb in ar.normal_blocks() and c.name.endswith(("HashSet::remove", "HashMap::remove", "HashSet::retain", "HashMap::retain", "HashSet::clear", "HashMap::clear"))
+            and "field_to_rules" in fmt_sym(ar.sym_operand(c.args[0]), maxdepth=10)]
+    late = [c for c in rems if any(c.bb in ar.reach(i.bb) for i in ins)]
+    if late:
+        R.violate("d", "add_rule:removes-after-insert", "add_rule removes entries from field_to_rules (line %d) after it has filed the rule's conclusions: a field assigned by both the earlier and the new version of a re-added rule loses the rule, so find_candidates no longer proposes it" % late[0].line, ar, late[0].line)
+    elif ins:
+        R.hold("d", "add_rule never removes from field_to_rules after filing the rule's conclusions", fn=ar)
     if okf:
         R.hold("d", "add_rule maps every conclusion to the rule's name", fn=ar)
     else:
